@@ -208,6 +208,19 @@ CORPUS = {
         sub(3, 1, "wamp.subscription.on_unsubscribe"), sub(3, 2, "wamp.subscription.on_delete"),
         sub(1, 1, "x.y"), sub(2, 1, "x.y"), sub(1, 2, "x.z"),
         msg(1, "bye"), drop(2)]),
+    # fe3aa7b  forward_timeout is per callee of a shared registration
+    ("C13", "shared-registration-forward-timeout-not-inherited"): dict(realms=[{}], ops=OBS + [
+        join(1, authid="a"), join(2, authid="b"), join(3, authid="c"),
+        msg(1, "reg", req=1, uri="p.q", opts=D(invoke=S("roundrobin"), forward_timeout=True)),
+        msg(2, "reg", req=1, uri="p.q", opts=D(invoke=S("roundrobin"))),
+        call(3, 1, "p.q", opts=D(timeout=I(500))), call(3, 2, "p.q", opts=D(timeout=I(500))),
+        tick(499), tick(1), tick(1000)]),
+    ("C13", "shared-registration-joiner-asks-forward-timeout"): dict(realms=[{}], ops=OBS + [
+        join(1, authid="a"), join(2, authid="b"), join(3, authid="c"),
+        msg(1, "reg", req=1, uri="p.q", opts=D(invoke=S("roundrobin"))),
+        msg(2, "reg", req=1, uri="p.q", opts=D(invoke=S("roundrobin"), forward_timeout=True)),
+        call(3, 1, "p.q", opts=D(timeout=I(500))), call(3, 2, "p.q", opts=D(timeout=I(500))),
+        tick(499), tick(1), tick(1000)]),
     ("C18", "kill-all-on-leave"): dict(realms=[{"kill": True}], ops=OBS + [
         join(1, authid="a"), join(2, authid="b"), sub(0, 2, "wamp.session.on_leave"),
         call(0, 3, "wamp.session.kill_all", kwargs=D(reason=S("app.done"), message=S("bye")))]),
